@@ -246,8 +246,11 @@ func runC08(c *runCfg) error {
 						if c.tier != "thorough" && (n+nullAt+pk+ncols+rk)%3 != 0 {
 							continue
 						}
-						if n >= 300 && (nullAt+pk+ncols+rk)%5 != 0 {
+						if n >= 300 && n < 65535 && (nullAt+pk+ncols+rk)%5 != 0 {
 							continue // the large vectors (megabytes per case): a fifth of the combinations
+						}
+						if n >= 65535 && !(ncols == 1 && rk == 0 && (nullAt == -1 || nullAt == 2) && (pk == 0 || pk == 1 || pk == 3)) {
+							continue // the model and the oracle are quadratic in positional format lists: six cases at the protocol maximum
 						}
 						poids := []int{}
 						for i := 0; i < n && i < 5; i++ {
